@@ -28,7 +28,7 @@ ALL_DEFECTS = ['cleanup_name', 'sync_generation', 'created_done']
 CLAUSES = ['C13.oneLink', 'C13.sync', 'C13.handoff', 'C13.noRestart', 'C13.keep']
 PROPS = ['PropOneLink', 'PropSync', 'PropHandoff', 'PropNoRestart', 'PropKeep']
 ACTIONS = ['CacheCreate', 'CacheDelete', 'ReadyOn', 'ReadyOff', 'ContainerFinishes',
-           'MonitorCleanup', 'CleanupCompletes', 'ManagerRestart', 'OnCreated', 'OnModified',
+           'MonitorCleanup', 'CleanupCompletes', 'ManagerRestart', 'NodeStart', 'OnCreated', 'OnModified',
            'OnDeleted', 'Synchronize']
 
 RULE = ('a history counts when some step is a _synchronize over a non-empty cache or apps/ '
@@ -49,7 +49,8 @@ ASSUMPTIONS = [
     'a container finishes (exitinfo/aborted/oom + exit tombstone) only while its running link '
     'exists; in the model-checked configurations and 3/4 of the random histories the tombstone is '
     'handled before a later generation of the instance is linked under running/',
-    'one AppCfgMgr at a time; run.sh clearing running/ and cleanup/ at node start is not modelled',
+    'one AppCfgMgr at a time; a start of the node services is modelled as: running/ and cleanup/ '
+    'emptied (docstring of _synchronize), tombstones gone, new inactive manager',
 ]
 
 
@@ -296,8 +297,8 @@ def replay(ctx, path):
 # (DESIGN.md 4.4).  Not part of the quick tier.
 _GOOD = [['ReadyOn', []], ['Deliver', []], ['CacheCreate', ['a1']], ['Deliver', []],
          ['ContainerFinishes', ['a1', 1, 'exitinfo']], ['MonitorCleanup', ['a1', 1]],
-         ['CacheCreate', ['a2']], ['Deliver', []], ['CacheDelete', ['a2']], ['Deliver', []],
-         ['ManagerRestart', []], ['ReadyOn', []], ['Deliver', []]]
+         ['ReadyOff', []], ['Deliver', []], ['ReadyOn', []], ['Deliver', []],      # 10: a sync
+         ['CacheCreate', ['a2']], ['Deliver', []], ['CacheDelete', ['a2']], ['Deliver', []]]  # 14: _on_deleted
 
 
 def _corruptions():
@@ -313,10 +314,10 @@ def _corruptions():
 
     def second(post):      # a second cleanup link to the same container
         post['cleanup'].append(dict(n=dict(k='i', i='a2', g=0), t=dict(i='a2', g=1)))
-    return [('running link kept by _on_deleted', 10, relink, 'C13.handoff'),
-            ('no cleanup link after _on_deleted', 10, not_handed, 'C13.handoff'),
-            ('second cleanup link', 10, second, 'C13.oneLink'),
-            ('finished container relinked by the sync', 13, restart, 'C13.noRestart')]
+    return [('running link kept by _on_deleted', 14, relink, 'C13.handoff'),
+            ('no cleanup link after _on_deleted', 14, not_handed, 'C13.handoff'),
+            ('second cleanup link', 14, second, 'C13.oneLink'),
+            ('finished container relinked by the sync', 10, restart, 'C13.noRestart')]
 
 
 _MUTANTS = [
@@ -345,6 +346,8 @@ def selftest(ctx):
     verdicts, _ = _validate([base], timeout=300)
     clean = sorted({f for v in verdicts for f in v['fail']})
     ctx.log('uncorrupted trace: %d steps, failed clauses %s' % (len(verdicts), clean))
+    if clean:
+        raise tlc.MachineryError('the reference trace of the selftest is not clean: %s' % clean)
     traces = []
     for k, (name, step, edit, clause) in enumerate(_corruptions()):
         t = copy.deepcopy(base)
